@@ -20,10 +20,10 @@ SPEC = {
     "assumptions": ["callbacks do not call Close on their own subscriber from inside OnTimeout (the delivery goroutine holds the read lock while it waits, not while it runs the callback)"],
 }
 META = {
-  "text": "Coq theorems (Props/C10.v, closed under the global context) over the publication LTS (Model/Pub.v) in which the Go runtime's panics (send on a closed channel, close of a closed channel) are explicit transitions: for EVERY reachable state (every schedule, every position and repetition of Close of subscribers and of the publication from any number of callers) no panic transition has fired; a subscriber's channel is closed at most once and exactly when the one closer that took it out of the map has passed the lock; from the close on, what was buffered is exactly what receives yield, in order, followed by 'closed', and nothing is added; every run with closes of s is matched by a run without any close of s that is identical for all other subscribers; Close is enabled in every state and a closing subscriber is always either finished or has an enabled internal step (no deadlock). Tied to the code by scripts with Close injected at every position (child processes) replayed in Coq and by -race stress of closers racing publishers.",
+  "text": "Coq theorems (Props/C10.v, closed under the global context) over the publication LTS (Model/Pub.v) in which the Go runtime's panics (send on a closed channel, close of a closed channel) are explicit transitions: for EVERY reachable state (every schedule, every position and repetition of Close of subscribers and of the publication from any number of callers) no panic transition has fired; a subscriber's channel is closed at most once and exactly when the one closer that took it out of the map has passed the lock; from the close on, what was buffered is exactly what receives yield, in order, followed by 'closed', and nothing is added; every run with closes of s is matched by a run without any close of s that is identical for all other subscribers; Close is enabled in every state and a closing subscriber is always either finished or has an enabled internal step (no deadlock). Props/C10Lock.v adds four obligations over the lock skeleton that the translator regenerates from publisher/publication.go on every run: every access to closed / every send on or close of receiveCh holds the subscriber's RWMutex (writes in write mode), no lock is re-acquired on a path that already holds it (recursive RLock), the publication's subscriber map is race free. Tied to the code by scripts with Close injected at every position (child processes) replayed in Coq and by -race stress of closers racing publishers.",
   "design_ref": "DESIGN.md section 7, 'Publication model shared by C06, C10, C15' and 'C10'",
   "note": "Trusted: Coq kernel + vm_compute; the hand-written LTS (atomicity of map/channel/lock operations, RWMutex contract); the harness's trace annotation; scheduler fairness.",
-  "technique": "Coq invariant + simulation proofs over an interleaving model (LTS) with explicit runtime panics + scripted close-injection correspondence replayed by vm_compute + free-running -race stress in child processes",
+  "technique": "Coq invariant + simulation proofs over an interleaving model (LTS) with explicit runtime panics + lockset theorems over a lock skeleton regenerated from the source by a translator + scripted close-injection correspondence replayed by vm_compute + free-running -race stress in child processes",
 }
 KNOWN = [
  {"property": "C10", "id": "F16a", "status": "fixed", "commit": "6b76eb1",
